@@ -34,9 +34,9 @@
 (* records the declarative expectation in `hist` for the replay.           *)
 (*                                                                         *)
 (* PROPERTIES.  Agree: the label tensor the code produces is the           *)
-(* declarative one, for every operation valid for the shape.  The model of *)
-(* the PINNED code violates it; TLC's counterexamples are predictions the  *)
-(* replay confirms on the real code.  AgreeExceptKnown: the model deviates *)
+(* declarative one, for every operation valid for the shape.  The model    *)
+(* violates it; TLC's counterexamples are predictions which the replay     *)
+(* confirms on the real code.  AgreeExceptKnown: the model deviates        *)
 (* ONLY in the syntactic classes of StepClass / OpClass below              *)
 (*   row-or-col-int(-1)       K[..., -1, :]: linear_operator turns the int *)
 (*                            i into slice(i, i+1), empty for i = -1       *)
@@ -50,9 +50,12 @@
 (*                            batch-shaped parameter                       *)
 (*   param-batch, x1-x2-batch-differ (unsqueeze, repeat)  the kernel batch *)
 (*                            or a lower-rank input does not follow        *)
-(* and holds on the model: it is the invariant of the generation runs and  *)
-(* the class is the cell signature of the replay.  When the code is        *)
-(* repaired the replay passes and reports the stale predictions as drift.  *)
+(* and holds on the model for every value of Repairs (a repaired class no  *)
+(* longer deviates and is no longer a class): it is the invariant of the   *)
+(* generation runs, and the class is the cell signature of the replay.     *)
+(* checks/c06.py sets Repairs to the fix: commits present in the tree; a    *)
+(* prediction the real code refutes is reported as drift (a repair landed  *)
+(* that Repairs does not name yet).                                        *)
 (***************************************************************************)
 EXTENDS PyIndex, TLC
 
@@ -60,6 +63,11 @@ CONSTANTS N1, N2,        \* rows of x1, x2
           T,             \* outputs per input (num_outputs_per_input)
           Tails,         \* sequence of parameter tails, e.g. << <<1,1>> >> or << <<>>, <<1,1>> >>
           AD,            \* the active_dims buffer as a sequence (<<>> = the kernel has none)
+          Repairs,       \* subset of {"slice_stop_0", "active_dims_buffer", "product_expand_batch", "index_diag",
+                         \* "multitask_active_dims", "call_diag"}: the fix: commits present in the modelled tree.  Repairs = {} is
+                         \* the pinned code.  The first two switch the transcription below; the other four repair kernel classes
+                         \* (Additive/Product expand_batch, IndexKernel diag, MultitaskKernel active_dims, the diag heuristic of
+                         \* Kernel.__call__) that this module does not model - they are decided by the zoo relations only
           Jobs,          \* set of << <<param batch shape, x1 batch shape, x2 batch shape>>, family of operations >> enumerated by this run
           MaxSteps,      \* chain length (1 = single operations)
           Pad,           \* how far slice bounds reach beyond the axis (rs / cs families)
@@ -206,6 +214,8 @@ KErr == [bs |-> <<>>, pars |-> <<>>, ad |-> Err, err |-> TRUE]
 MkKernel(pb) == [bs |-> pb, pars |-> [i \in DOMAIN Tails |-> Iota(pb \o Tails[i], 0)],
                  ad |-> Tn(<<Len(AD)>>, AD), err |-> FALSE]
 HasAD == AD # <<>>
+\* the active_dims buffer takes part in Kernel.__getitem__ / expand_batch (pinned code); the repair skips it
+ADIndexed == HasAD /\ "active_dims_buffer" \notin Repairs
 
 \* the batch axes a parameter contributes when the kernel is evaluated by broadcasting against the data
 ParPrefix(P, tail) ==
@@ -222,10 +232,10 @@ KGetItem(k, idx) ==
            newad == LKIndex(k.ad, idx)
            BsAfter(old, new) == PyHead(new.shape, Len(k.bs) - (Len(old.shape) - Len(new.shape)))
        IN IF \E i \in DOMAIN newp : newp[i].err THEN KErr                 \* IndexError
-          ELSE IF HasAD /\ newad.err THEN KErr                            \* IndexError
-          ELSE [bs |-> IF HasAD THEN BsAfter(k.ad, newad)
+          ELSE IF ADIndexed /\ newad.err THEN KErr                            \* IndexError
+          ELSE [bs |-> IF ADIndexed THEN BsAfter(k.ad, newad)
                        ELSE IF Len(k.pars) > 0 THEN BsAfter(k.pars[Len(k.pars)], newp[Len(newp)]) ELSE k.bs,
-                pars |-> newp, ad |-> IF HasAD THEN newad ELSE k.ad, err |-> FALSE]
+                pars |-> newp, ad |-> IF ADIndexed THEN newad ELSE k.ad, err |-> FALSE]
 
 \* Kernel.expand_batch(new)
 KExpand(k, new) ==
@@ -235,8 +245,8 @@ KExpand(k, new) ==
   ELSE LET Ex(P) == TExpandTo(P, new \o PyTail(P.shape, Len(k.bs)))
            newp == [i \in DOMAIN k.pars |-> Ex(k.pars[i])]
            newad == Ex(k.ad)
-       IN IF (\E i \in DOMAIN newp : newp[i].err) \/ (HasAD /\ newad.err) THEN KErr   \* RuntimeError from Tensor.expand
-          ELSE [bs |-> new, pars |-> newp, ad |-> IF HasAD THEN newad ELSE k.ad, err |-> FALSE]
+       IN IF (\E i \in DOMAIN newp : newp[i].err) \/ (ADIndexed /\ newad.err) THEN KErr   \* RuntimeError from Tensor.expand
+          ELSE [bs |-> new, pars |-> newp, ad |-> IF ADIndexed THEN newad ELSE k.ad, err |-> FALSE]
 
 \* what kernel[idx] / kernel.expand_batch(new) MEAN: the parameter family is indexed / broadcast, active_dims is untouched
 KGetItemExpected(k, idx) ==
@@ -304,8 +314,10 @@ LKGetItem(L, row, col, bidx) ==
      ELSE IF T # 1 /\ (row.s # NoneI \/ col.s # NoneI) THEN Fallback("mt-step")
      ELSE
        LET OrElse(v, d) == IF v = NoneI \/ v = 0 THEN d ELSE v              \* Python's `v or d`
-           rs == OrElse(row.a, 0) re == OrElse(row.b, size[Len(size) - 1])
-           cs == OrElse(col.a, 0) ce == OrElse(col.b, size[Len(size)])
+           \* pinned: `stop or size`; repaired: `size if stop is None else stop`
+           Stop(v, d) == IF "slice_stop_0" \in Repairs THEN (IF v = NoneI THEN d ELSE v) ELSE OrElse(v, d)
+           rs == OrElse(row.a, 0) re == Stop(row.b, size[Len(size) - 1])
+           cs == OrElse(col.a, 0) ce == Stop(col.b, size[Len(size)])
        IN IF T # 1 /\ (rs % T # 0 \/ cs % T # 0 \/ re % T # 0 \/ ce % T # 0) THEN Fallback("mt-indivisible")
           ELSE
             LET row2 == IF T = 1 THEN row ELSE Sl(rs \div T, re \div T, NoneI)
@@ -332,7 +344,19 @@ LKAbsorbed(L, items) ==
   IN IF size = NoBC THEN [den |-> Err, br |-> <<"raise", "-", "-">>]
      ELSE IF sel[nd].err THEN [den |-> Err, br |-> <<"raise", "-", "-">>]
      ELSE LET total == Prod(sel[nd].shape)
-              base == LKGetItem(L, Full, Full, [d \in 1..(nd - 2) |-> LstI(sel[d].data)])
+              rsh == sel[nd].shape
+              \* the batch index tensors keep the caller's RAW values (a negative int / entry stays negative: on a broadcasting
+              \* size-1 axis -2 raises IndexError and triggers the expansion where 0 would not); slices become arange values.
+              \* zd = result axis of the zipped index tensors, j = position along it
+              Lsts == {a \in 1..nd : items[a].k = "list"}
+              firstL == IF Lsts = {} THEN 0 ELSE CHOOSE a \in Lsts : \A b \in Lsts : a <= b
+              zd == 1 + Cardinality({a \in 1..(firstL - 1) : items[a].k = "slice"})
+              ZipPos(p) == ((p - 1) \div Stride(rsh, zd)) % rsh[zd]
+              Raw(d) == IF items[d].k = "int" THEN [p \in 1..total |-> items[d].v]
+                        ELSE IF items[d].k = "list"
+                             THEN [p \in 1..total |-> IF Len(items[d].v) = 1 THEN items[d].v[1] ELSE items[d].v[ZipPos(p) + 1]]
+                             ELSE sel[d].data
+              base == LKGetItem(L, Full, Full, [d \in 1..(nd - 2) |-> LstI(Raw(d))])
               D == Dense(base.L)
               R == size[nd - 1] C == size[nd]
           IN IF base.L.err \/ D.err THEN [den |-> Err, br |-> base.br]
@@ -500,12 +524,12 @@ StepClass(L, idx) ==
               nontriv == (\E d \in DOMAIN batch : ~IsFullSl(batch[d])) \/ (Len(batch) > 0 /\ row.k = "list" /\ col.k = "list")
               OnB(sh, d) == Len(sh) = Len(B) /\ sh[d] = 1 /\ B[d] > 1                    \* axis d of sh broadcasts
               PartSl(d) == batch[d].k = "slice" /\ ~IsFullSl(batch[d])
-          IN IF HasAD /\ nontriv /\ pb # <<>> THEN "active_dims"
+          IN IF ADIndexed /\ nontriv /\ pb # <<>> THEN "active_dims"
              ELSE IF nontriv /\ pb # <<>> /\ Len(pb) < Len(B) THEN "param-batch-rank<output-batch-rank"
              ELSE IF \E d \in DOMAIN batch : PartSl(d) /\ OnB(pb, d) THEN "slice-on-broadcast-param-axis"
              ELSE IF \E d \in DOMAIN batch : PartSl(d) /\ (OnB(b1, d) \/ OnB(b2, d)) THEN "slice-on-broadcast-data-axis"
              ELSE IF (row.k = "int" /\ row.v = -1) \/ (col.k = "int" /\ col.v = -1) THEN "row-or-col-int(-1)"
-             ELSE IF T # 1 /\ row.k = "slice" /\ col.k = "slice" /\ (row.b = 0 \/ col.b = 0) THEN "slice-stop-0"
+             ELSE IF "slice_stop_0" \notin Repairs /\ T # 1 /\ row.k = "slice" /\ col.k = "slice" /\ (row.b = 0 \/ col.b = 0) THEN "slice-stop-0"
              ELSE "none"
 OpClass(L) ==
   IF L.err THEN "none"
@@ -575,7 +599,7 @@ KOp(op, idx, arg) ==
          m == IF op = "kgetitem" THEN KGetItem(k, idx) ELSE KExpand(k, arg)
          AsT(x) == IF x.err THEN Err ELSE Tn(x.bs, IF Len(x.pars) = 0 THEN <<>> ELSE x.pars[1].data)
      IN /\ cur' = Obj(LErr, AsT(m), TRUE)
-        /\ hist' = Append(hist, [op |-> op, cls |-> IF HasAD THEN "active_dims" ELSE "none", idx |-> idx, arg |-> arg, eerr |-> e.err, eshape |-> AsT(e).shape, edata |-> AsT(e).data,
+        /\ hist' = Append(hist, [op |-> op, cls |-> IF ADIndexed THEN "active_dims" ELSE "none", idx |-> idx, arg |-> arg, eerr |-> e.err, eshape |-> AsT(e).shape, edata |-> AsT(e).data,
                                  merr |-> m.err, mshape |-> AsT(m).shape, agree |-> SameK(e, m),
                                  br |-> <<IF m.err THEN "raise" ELSE IF m.ad = k.ad THEN "ad-kept" ELSE "ad-changed", "-", "-">>, path |-> op])
   /\ steps' = steps + 1 /\ UNCHANGED <<pat, fam, chunk>>
